@@ -4,6 +4,7 @@ EXTENDS PyWriter
 
 Iris(ps, ns) == {<<"iri", p, n>> : p \in ps, n \in ns}
 Bn(b) == <<"bn", b>>
+I(p, n) == <<"iri", p, n>>
 PlainLit(l) == <<"lit", l, "", "">>
 LangLit(l, lg) == <<"lit", l, lg, "">>
 TypedLit(l, d) == <<"lit", l, "", d>>
@@ -84,6 +85,15 @@ MixO == MixIri \cup {Bn("b1"), Bn("b2")} \cup MixLits \cup MixQt \cup SameText
 MixG == {DG, Bn("g"), Bn("x"), PlainLit("l"), TypedLit("1", "d:b")} \cup Iris({"a/", "b#", ""}, {"n0", "n3", "x"})
 MixNs == {<<"ex", "a/", "">>, <<"", "b#", "">>, <<"n", "", "x">>, <<"e2", "c/", "n4">>, <<"rdf", "d#", "">>}
 
+\* dense RDF 1.1 universe: tiny pools, so consecutive statements repeat terms all the time -- among them the terms that are FALSY as Python objects in rdflib
+\* (numeric zero, boolean false, empty lexical forms), which an `if previous and previous == term` would never elide
+XsdInteger == "http://www.w3.org/2001/XMLSchema#integer"
+XsdBoolean == "http://www.w3.org/2001/XMLSchema#boolean"
+DenseS == {I("a/", "x"), I("a/", "y"), Bn("b1")}
+DenseP == {I("a/", "x"), I("b#", "y")}
+DenseO == {TypedLit("0", XsdInteger), TypedLit("false", XsdBoolean), PlainLit(""), LangLit("", "en"), PlainLit("l"), I("a/", "x")}
+DenseG == {DG, I("a/", "x"), Bn("g")}
+
 \* RDF 1.1 only (rdflib can carry it)
 R11S == MixIri \cup {Bn("b1"), Bn("b2"), Bn("w"), Bn("x")}
 R11P == MixIri
@@ -91,7 +101,6 @@ R11O == MixIri \cup {Bn("b1"), Bn("b2"), Bn("w"), Bn("x"), PlainLit("w")} \cup M
 R11G == {DG, Bn("g"), Bn("x")} \cup Iris({"a/", "b#", ""}, {"n0", "n3", "x"})
 
 \* C18: statements that need more entries than an enabled table has slots
-I(p, n) == <<"iri", p, n>>
 C18Iri == Iris({"a/", "b#", "c/", "d#", ""}, {"x", "y"})          \* incl. IRIs without a namespace part: the empty prefix takes a slot too
 C18IriG == C18Iri \cup {DG}
 C18Dt == {TypedLit("1", "d:a"), TypedLit("1", "d:b"), TypedLit("1", "d:c"), TypedLit("2", "d:d"), Bn("b1")}
